@@ -353,7 +353,9 @@ func (c *Context) Quo(d, x, y *Decimal) (Condition, error) {
 			rem.Mul(&rem, bigTwo)
 			half := rem.Cmp(&divisor)
 			if c.Rounding.ShouldAddOne(&d.Coeff, d.Negative, half) {
-				d.Coeff.Add(&d.Coeff, bigOne)
+				// roundAddOne keeps the coefficient at Precision digits
+				// when the increment carries (99..9 + 1), bumping shift.
+				roundAddOne(&d.Coeff, &shift)
 				// The coefficient changed, so recompute num digits in
 				// setExponent.
 				nd = unknownNumDigits
